@@ -23,6 +23,8 @@ def gen_cases(tier, seed):
             cls = rnd.choice([0, 0, 0, 1, 2])
             j = rnd.randrange(nt)
             t = cls * 16 + j
+            if cls == 2 and rnd.random() < 0.25:
+                n = rnd.choice([10, 11])          # a template named by a template-id whose template-name is name 8 / 9
             if (n, t) not in kind_of:
                 kind_of[(n, t)] = rnd.choice(PLAIN_KINDS) if cls == 0 else ("fundecl" if cls == 1 else rnd.choice(["ptemplate", "stemplate"]))
             items.append("%s:%d:%d" % (kind_of[(n, t)], n, t))
